@@ -14,3 +14,13 @@ def vcount(x):
     """identity that records its calls (pass counting for C06/C07)"""
     CALLS.append((threading.get_ident(), x))
     return x
+
+
+BROKEN = set()
+
+
+def vswitch(key, value):
+    """passes value through unless the harness switched `key` to failing"""
+    if key in BROKEN:
+        raise RuntimeError(f'vswitch: {key} is switched to fail')
+    return value
